@@ -346,7 +346,13 @@ def path_emit_html(p, res):
         if src_of(lp.iter) == 'node.attributes' and len(calls) == 1 and src_of(calls[0].args[0]) == av and inner == {('should_output_attribute(%s)' % av, True)} \
                 and not any(isinstance(x, (ast.Break, ast.Continue, ast.Return)) for x in ast.walk(lp)):
             res.ok('attributes pushed in list order behind should_output_attribute')
-        elif src_of(lp.iter) != 'node.attributes' and 'node.attributes' in src_of(lp.iter):
+        elif isinstance(lp.iter, ast.Call) and isinstance(lp.iter.func, ast.Name) and lp.iter.func.id == 'filter' and len(lp.iter.args) == 2 \
+                and src_of(lp.iter.args[0]) == 'should_output_attribute' and src_of(lp.iter.args[1]) in ('node.attributes', 'node.attributes or ()', 'node.attributes or []') \
+                and len(calls) == 1 and src_of(calls[0].args[0]) == av and not inner and not any(isinstance(x, (ast.Break, ast.Continue, ast.Return)) for x in ast.walk(lp)):
+            res.ok('attributes pushed in list order behind filter(should_output_attribute, ..)')
+        elif src_of(lp.iter) != 'node.attributes' and 'node.attributes' in src_of(lp.iter) and (
+                (isinstance(lp.iter, ast.Call) and isinstance(lp.iter.func, ast.Name) and lp.iter.func.id in ('reversed', 'sorted', 'set'))
+                or (isinstance(lp.iter, ast.Subscript) and isinstance(lp.iter.slice, ast.Slice))):
             res.bad(F('PATH-EMIT-HTML', f, lp, 'for %s in %s' % (av, src_of(lp.iter)), 'every attribute must be pushed in list order (this iterates %s)' % src_of(lp.iter)))
         elif src_of(lp.iter) == 'node.attributes' and len(calls) == 1 and not inner:
             res.bad(F('PATH-EMIT-HTML', f, calls[0], src_of(calls[0]), 'attributes must be filtered by should_output_attribute (implied attributes without value are not printed)'))
